@@ -339,6 +339,53 @@ theorem conc_post_after_stop_fails (c : CState) (hst : c.s.stopped = true) (sche
 
 end Concurrent
 
+/-! ### lock order: the held-before relation of an accepted skeleton has no cycle -/
+
+/-- `HeldBefore sk a b`: along some chain of functions, a mutex of class `b` is acquired while
+    one of class `a` is held (transitive closure of `lockEdges`) -/
+inductive HeldBefore (sk : LockSkel) : String → String → Prop
+  | edge {a b} : (a, b) ∈ lockEdges sk → HeldBefore sk a b
+  | trans {a b c} : HeldBefore sk a b → HeldBefore sk b c → HeldBefore sk a c
+
+theorem heldBefore_rank (sk : LockSkel) (h : lockOrderOK sk = true) {a b : String} (hb : HeldBefore sk a b) :
+    ∃ x y, lockRank a = some x ∧ lockRank b = some y ∧ x < y := by
+  induction hb with
+  | edge he =>
+    simp only [lockOrderOK, Bool.and_eq_true, List.all_eq_true] at h
+    have := h.2 _ he
+    simp only [edgeOK] at this
+    split at this
+    · rename_i x y hx hy
+      exact ⟨x, y, hx, hy, by simpa using this⟩
+    · cases this
+  | trans _ _ ih1 ih2 =>
+    obtain ⟨x, y, hx, hy, hxy⟩ := ih1
+    obtain ⟨y', z, hy', hz, hyz⟩ := ih2
+    rw [hy] at hy'
+    cases hy'
+    exact ⟨x, z, hx, hz, Nat.lt_trans hxy hyz⟩
+
+/-- **lock_order_acyclic** — for EVERY lock skeleton the checker accepts (in particular the one
+extracted from event.go, `Ties.C39.lock_order_tied`): no mutex class is (transitively) held
+before itself. A cyclic wait between goroutines — `Unsubscribe` holding `closeMu` and waiting
+for `dispatcher.mutex` while `Stop` holds `dispatcher.mutex` and waits for that `closeMu` —
+needs such a cycle; without one every critical section ends without waiting for a
+higher-or-equal ranked mutex, which is what the atomic steps of `Model/EventConc.lean` assume. -/
+theorem lock_order_acyclic (sk : LockSkel) (h : lockOrderOK sk = true) (a : String) : ¬ HeldBefore sk a a := by
+  intro hb
+  obtain ⟨x, y, hx, hy, hxy⟩ := heldBefore_rank sk h hb
+  rw [hx] at hy
+  cases hy
+  exact Nat.lt_irrefl _ hxy
+
+/-- test: the skeleton of the seeded change C39-sub2 (Unsubscribe: closeMu, then del) is rejected -/
+example : lockOrderOK [("Dispatcher.Stop", false, "Dispatcher.mutex", []),
+    ("Dispatcher.Stop", true, "Subscription.closewait", ["Dispatcher.mutex"]),
+    ("Dispatcher.del", false, "Dispatcher.mutex", []),
+    ("Subscription.Unsubscribe", false, "Subscription.closeMu", []),
+    ("Subscription.Unsubscribe", true, "Dispatcher.del", ["Subscription.closeMu"]),
+    ("Subscription.closewait", false, "Subscription.closeMu", [])] = false := by decide
+
 /-! ### the hypotheses are satisfiable / the model does what the comments say (tests) -/
 
 /-- test: a history with two subscribers, a full buffer (cap 2) and an unsubscribe -/
